@@ -52,6 +52,12 @@ func registry() []*codec {
 	out = append(out, mptCodecs()...)
 	out = append(out, nefCodecs()...)
 	out = append(out, manifestCodecs()...)
+	// the JSON decoders of the same types
+	for _, c := range out {
+		if c.jenc != nil && c.jdec != nil {
+			out = append(out, jsonCodecOf(c))
+		}
+	}
 	// development aid: C17_ONLY=substr,substr restricts the run to matching codecs
 	if only := os.Getenv("C17_ONLY"); only != "" {
 		var sel []*codec
@@ -269,6 +275,8 @@ type inputCase struct {
 	name   string
 	// big: the mutation introduces a 4- or 8-byte var-int prefix or a count >= 2^16
 	big bool
+	// alloc: bytes allocated by the first decode (set by evalInput)
+	alloc uint64
 }
 
 // evalInput returns the outcome class, whether the input was accepted, and findings.
@@ -313,6 +321,7 @@ func (c *codec) evalInput(ic *inputCase) (string, bool, []finding) {
 		a0 := allocated()
 		v, err := c.dec(ic.input)
 		a1 := allocated()
+		ic.alloc = a1 - a0
 		if d := a1 - a0; d > allocC1+allocC2*uint64(len(ic.input)) {
 			bad("allocation-over-ceiling", fmt.Sprintf("decoding %d input bytes allocated %d bytes (ceiling %d + %d per input byte); decode error: %v", len(ic.input), d, allocC1, allocC2, err))
 		}
@@ -397,19 +406,19 @@ func seedsOf(c *codec, th bool) []seedT {
 	}
 	seen := map[string]bool{}
 	var out []seedT
-	sigs := map[string]bool{}
+	sigs := map[string]int{}
 	add := func(i int, b []byte) {
 		if len(b) > maxLen || len(b) == 0 || seen[string(b)] {
 			return
 		}
 		seen[string(b)] = true
-		if c.sig != nil && !th {
-			// quick: one seed per layout
+		if c.sig != nil {
+			// one seed per layout in quick, two in thorough
 			sg := c.sig(b)
-			if sigs[sg] {
+			if sigs[sg] >= vk2(th, 1, 2) {
 				return
 			}
-			sigs[sg] = true
+			sigs[sg]++
 		}
 		out = append(out, seedT{i, b})
 	}
@@ -424,6 +433,14 @@ func seedsOf(c *codec, th bool) []seedT {
 		for _, a := range c.accept() {
 			add(-1, a.b)
 		}
+	}
+	if n := vk2(th, c.maxSeeds[0], c.maxSeeds[1]); n > 0 && len(out) > n {
+		// evenly spread, keeping the first and the last
+		sel := make([]seedT, 0, n)
+		for i := 0; i < n; i++ {
+			sel = append(sel, out[i*(len(out)-1)/(n-1)])
+		}
+		out = sel
 	}
 	return out
 }
@@ -442,18 +459,22 @@ func enumerate(c *codec, th bool, shard, nshards int, f func(ic *inputCase) bool
 		return f(&inputCase{kind: kind, off: off, seed: seed, input: input, big: big})
 	}
 	emit := func(kind string, off int, seed, input []byte) bool { return emitB(kind, off, seed, input, false) }
-	if shard == 0 {
-		// all byte strings up to length 2 (3 for the cheap decoders in thorough)
+	// all byte strings up to length 2 (3 for the cheap decoders in thorough),
+	// spread over the shards by their first byte
+	{
 		maxLen := 2
 		if th && c.cheap {
 			maxLen = 3
 		}
-		if !emit("short", -1, nil, []byte{}) {
+		if shard == 0 && !emit("short", -1, nil, []byte{}) {
 			return
 		}
 		for l := 1; l <= maxLen; l++ {
 			n := 1 << (8 * l)
 			for x := 0; x < n; x++ {
+				if (x>>(8*(l-1)))%nshards != shard {
+					continue
+				}
 				b := make([]byte, l)
 				for k := 0; k < l; k++ {
 					b[k] = byte(x >> (8 * (l - 1 - k)))
@@ -463,6 +484,8 @@ func enumerate(c *codec, th bool, shard, nshards int, f func(ic *inputCase) bool
 				}
 			}
 		}
+	}
+	if shard == 0 {
 		if c.reject != nil {
 			for _, r := range c.reject() {
 				if !f(&inputCase{kind: "limit", off: -1, input: r.b, expect: "reject", name: r.name}) {
@@ -479,8 +502,8 @@ func enumerate(c *codec, th bool, shard, nshards int, f func(ic *inputCase) bool
 		}
 	}
 	seeds := seedsOf(c, th)
-	substSet := boundaryBytes
-	if th {
+	substSet, insertSet := boundaryBytes, boundaryBytes
+	if th && !c.derived {
 		substSet = make([]byte, 256)
 		for i := range substSet {
 			substSet[i] = byte(i)
@@ -514,7 +537,7 @@ func enumerate(c *codec, th bool, shard, nshards int, f func(ic *inputCase) bool
 			}
 		}
 		for i := 0; i <= len(s); i++ {
-			for _, x := range substSet {
+			for _, x := range insertSet {
 				m := cat(s[:i], []byte{x}, s[i:])
 				off := i
 				if off == len(s) {
@@ -534,7 +557,7 @@ func enumerate(c *codec, th bool, shard, nshards int, f func(ic *inputCase) bool
 		// to the value of the seed. Every position is tried with every longer
 		// form (the non-sites are just more inputs).
 		var sites []int
-		for i := 0; i < len(s); i++ {
+		for i := 0; i < len(s) && !c.derived; i++ {
 			if s[i] >= 0xfd {
 				continue
 			}
@@ -751,13 +774,12 @@ func workerMain(j *job) {
 			return
 		}
 		mk.set(idx, ic)
-		a0 := allocated()
 		t0 := time.Now()
 		outcome, acc, fs := c.evalInput(ic)
 		if d := time.Since(t0).Nanoseconds(); d > res.MaxNs {
 			res.MaxNs, res.MaxNsI = d, short(hx(ic.input), 200)
 		}
-		if d := allocated() - a0; d > res.MaxAlloc {
+		if d := ic.alloc; d > res.MaxAlloc {
 			res.MaxAlloc, res.MaxAllocI = d, short(hx(ic.input), 200)
 		}
 		res.Evals++
@@ -1042,6 +1064,9 @@ func TestCheck(t *testing.T) {
 	var vjobs []vjob
 	valuesPer := map[string]int{}
 	for _, c := range reg {
+		if c.derived {
+			continue
+		}
 		vals := c.gen(th)
 		valuesPer[c.name] = len(vals)
 		for lo := 0; lo < len(vals); lo += 64 {
@@ -1109,8 +1134,8 @@ func TestCheck(t *testing.T) {
 		seedStats[c.name] = [2]int{len(seeds), tot}
 		// inputs per seed byte: trunc 1 + subst |set| + insert |set| + delete 1 + 3 var-int forms
 		per := 2*len(boundaryBytes) + 5
-		if th {
-			per = 2*256 + 5
+		if th && !c.derived {
+			per = 256 + len(boundaryBytes) + 5
 		}
 		n := 1 + tot*per/vk2(th, 350000, 1500000)
 		if n > 16 {
@@ -1119,12 +1144,22 @@ func TestCheck(t *testing.T) {
 		if n > len(seeds) && len(seeds) > 0 {
 			n = len(seeds)
 		}
+		if th && c.cheap && n < 8 {
+			n = 8 // 2^24 short strings
+		}
 		for s := 0; s < n; s++ {
 			jobs = append(jobs, job{Codec: c.name, Shard: s, NShards: n, Thorough: th, Dir: dir})
 		}
 	}
 	// long shards first
-	sort.SliceStable(jobs, func(a, b int) bool { return seedStats[jobs[a].Codec][1]/jobs[a].NShards > seedStats[jobs[b].Codec][1]/jobs[b].NShards })
+	// and shard k of every codec before shard k+1 of any, so that a capped run
+	// has touched every codec
+	sort.SliceStable(jobs, func(a, b int) bool {
+		if jobs[a].Shard != jobs[b].Shard {
+			return jobs[a].Shard < jobs[b].Shard
+		}
+		return seedStats[jobs[a].Codec][1]/jobs[a].NShards > seedStats[jobs[b].Codec][1]/jobs[b].NShards
+	})
 	deadline := time.Now().Add(time.Duration(float64(time.Second) * (budgetLeft(r))))
 	var mu sync.Mutex
 	outcomes := map[string]int64{}
@@ -1133,6 +1168,7 @@ func TestCheck(t *testing.T) {
 	var maxAlloc uint64
 	var maxAllocWhere, maxNsWhere string
 	var maxNs, skipped int64
+	var cFindings []finding
 	restarts := 0
 	workers := runtime.NumCPU() - 2
 	if workers < 2 {
@@ -1176,12 +1212,20 @@ func TestCheck(t *testing.T) {
 				maxAlloc, maxAllocWhere = so.res.MaxAlloc, j.Codec+" "+so.res.MaxAllocI
 			}
 			restarts += so.restarts
-			for _, f := range so.findings {
-				report(f)
-			}
+			cFindings = append(cFindings, so.findings...)
 		}(j)
 	}
 	wg.Wait()
+	// report the shortest input of every key, simplest codec first
+	sort.SliceStable(cFindings, func(a, b int) bool {
+		if len(cFindings[a].Input) != len(cFindings[b].Input) {
+			return len(cFindings[a].Input) < len(cFindings[b].Input)
+		}
+		return cFindings[a].Codec < cFindings[b].Codec
+	})
+	for _, f := range cFindings {
+		report(f)
+	}
 	// distinct accepted inputs over all shards
 	distinct := map[uint64]struct{}{}
 	files, _ := filepath.Glob(filepath.Join(dir, "*.accepted"))
@@ -1199,6 +1243,8 @@ func TestCheck(t *testing.T) {
 	}
 	fmt.Printf("phase C (decoders): %d inputs, %d accepted (%d distinct), %d worker restarts in %.1fs\n", cEvals, cAccepted, len(distinct), restarts, time.Since(tC).Seconds())
 
+	cleanup()
+	vk.CleanScratch()
 	codecNames := make([]string, 0, len(reg))
 	perCodecOut := map[string]any{}
 	for _, c := range reg {
@@ -1234,6 +1280,7 @@ func TestCheck(t *testing.T) {
 		"slowest_single_input_where":         maxNsWhere,
 		"allocation_ceiling":   fmt.Sprintf("%d + %d*len(input) bytes", allocC1, allocC2),
 		"substitution_bytes":   vk2(th, len(boundaryBytes), 256),
+		"insertion_bytes":      len(boundaryBytes),
 	}, []string{
 		"field alphabets: every scalar from {0,1,max}, list lengths {0,1,2,max}, every union variant; composite types (transaction, block, messages, execution results, manifest) take the product over reduced lists of component shapes rather than over all component values",
 		"seeds for mutation are the distinct encodings of generated values not longer than 200 (quick) / 420 (thorough) bytes unless a codec states another bound; longer values take part in the round-trip phase only",
@@ -1344,6 +1391,8 @@ func replay(r *vk.Run) {
 		}
 		fmt.Printf("replayed 5x in a worker: codec %s kind %s input %s -> outcomes %v findings %v\n", f.Codec, f.Kind, short(f.Input, 100), so.res.Outcomes, keys)
 		n = 5
+		cleanup()
+		vk.CleanScratch()
 	}
 	r.Finish(map[string]any{"evaluations": n, "distinct_nontrivial": 2, "rule": "replay of one recorded case, 5 times"}, nil)
 }
